@@ -554,3 +554,11 @@ package actions
 //@             (sub.OrderedDelivery ==> unblocked(d, n2)) ==> (exists k int :: 0 <= k && k < len(result) && result[k].ID == d))
 //@   ensures no_swallowed_failure: [C09] dbfailed() && !old(dbfailed()) ==> err != nil
 //@   modifies S:dbfailed
+
+// The pull action's client entry point (waits, retries, runs its own transactions): used by handlers through
+// this summary only; its body is not under contract yet (see DESIGN: C01/C04 pull path).
+//@ func (*GetSubscriptionMessages).ExecuteClient(a, ctx, client) (err)
+//@   trusted
+//@   requires a != nil
+//@   ensures err == nil ==> a.results != nil && (forall i int :: {a.results.Deliveries[i]} 0 <= i && i < len(a.results.Deliveries) ==> a.results.Deliveries[i] != nil)
+//@   modifies T:*, S:*, F:actions.GetSubscriptionMessages:*, F:actions.getSubscriptionMessagesResults:*, E:*actions.SubscriptionMessageDelivery:*, F:actions.SubscriptionMessageDelivery:*
